@@ -1,5 +1,5 @@
 """C02 — see DESIGN.md section 4 and harness/storecheck.py."""
-from . import storecheck
+from . import storecheck, common
 
 CHECKS = ('c02',)
 
@@ -121,10 +121,81 @@ def resource_extend_pass(ctx):
             return
 
 
+def proxy_containment_pass(ctx):
+    """a containment reference (single or many) is given an *unresolved* proxy for an object of another document — a root
+    of it, or a child somewhere in it: the object the proxy stands for has one owner afterwards — it is contained by the
+    holder, reports the holder's resource, and has left the roots (or the container) it had"""
+    import os, shutil, tempfile
+    from pyecore import ecore as E
+    from pyecore.resources import ResourceSet, URI
+    tmp = tempfile.mkdtemp(prefix='verif_c02_')
+    try:
+        for k in range(24 if ctx.quick() else 300):
+            rng = common.sub_rng(ctx.seed, 'C02', 'proxy-containment', k)
+            pk = E.EPackage('pc', f'http://verif/c02/pc{k}', 'pc')
+            A = E.EClass('A')
+            pk.eClassifiers.append(A)
+            many = k % 2 == 0
+            A.eStructuralFeatures.extend([E.EAttribute('name', E.EString), E.EReference('kids', A, upper=-1, containment=True),
+                                          E.EReference('slot', A, upper=-1 if many else 1, containment=True)])
+            d = os.path.join(tmp, f'pc{k}')
+            os.makedirs(d)
+            w = ResourceSet()
+            rb = w.create_resource(URI(os.path.join(d, 'b.xmi')))
+            y = A(name='y'); y.kids.append(A(name='yk')); y.kids[0].kids.append(A(name='ykk'))
+            rb.append(y)
+            rb.append(A(name='y2'))
+            rb.save()
+            rset = ResourceSet()
+            rset.metamodel_registry[pk.nsURI] = pk
+            ra = rset.create_resource(URI(os.path.join(d, 'a.xmi')))
+            h = A(name='h')
+            ra.append(h)
+            frag, tname = rng.choice([('/0', 'y'), ('/1', 'y2'), ('/0/@kids.0', 'yk'), ('/0/@kids.0/@kids.0', 'ykk')])
+            p = E.EProxy(path=f'b.xmi#{frag}', resource=ra)
+            ctx.evaluations += 1
+            ctx.count(f'proxy-containment/{"many" if many else "single"}/{tname}')
+            ctx.nontriv(('proxy-containment', k))
+            rep = {'proxy_containment': k, 'many': many, 'target': tname}
+            try:
+                if many:
+                    h.slot.append(p)
+                else:
+                    h.slot = p
+            except Exception as e:
+                ctx.count('proxy-containment/raised/' + type(e).__name__)
+                continue
+            try:
+                t = p.force_resolve() if hasattr(p, 'force_resolve') else p
+                t = getattr(p, '_wrapped', None) or t
+                lb = rset.get_resource(URI(os.path.join(d, 'b.xmi')))
+                problems = []
+                if t.name != tname:
+                    problems.append(f'the proxy stands for {t.name}')
+                if t.eContainer() is not h or t.eContainmentFeature() is None or t.eContainmentFeature().name != 'slot':
+                    problems.append('eContainer() / eContainmentFeature() are not the holder and its reference')
+                if t.eResource is not ra:
+                    problems.append('eResource is not the resource of the holder')
+                if any(x is t for x in lb.contents):
+                    problems.append('it is still a root of the document it came from')
+                if any(x is t for r in lb.contents for o in [r] + list(r.eAllContents()) for x in o.kids):
+                    problems.append('it is still a child of its previous container')
+            except Exception as e:
+                problems = [f'inspecting the result raised {type(e).__name__}: {e}']
+            if problems:
+                ctx.violate({'clause': 'multi-owner', 'through_proxy': True, 'unresolved': True},
+                            f'multi-owner: an unresolved proxy for {tname} of another document given to a {"many" if many else "single"}-valued containment: '
+                            + '; '.join(problems), rep)
+                return
+    finally:
+        shutil.rmtree(tmp, ignore_errors=True)
+
+
 def run(ctx):
     storecheck.run(ctx, CHECKS)
     equal_owner_pass(ctx)
     resource_extend_pass(ctx)
+    proxy_containment_pass(ctx)
 
 
 def search(ctx):
